@@ -376,6 +376,13 @@ Definition send_write (c : cfg) (m : msg) : M unit :=
 Definition send_tail (c : cfg) (m : msg) (w : world) : M unit :=
   (match mkind m, treq w with
    | KTestReq, None => raise XConn
+   | KTestReq, Some t =>
+       (* R13c: only the probe send_test_req() has just registered may go out:
+          msg.get(TestReqID, None) != str(self._test_req_id) -> FIXConnectionError *)
+       match get T112 (mtags m) with
+       | Some v => if str_eqb v (z_to_dec t) then ret tt else raise XConn
+       | None => raise XConn
+       end
    | _, _ => ret tt
    end) ;;;
   send_write c m.
